@@ -192,25 +192,36 @@ func (w *demuxWorld) drawCallerName(t *rapid.T) name {
 	}
 }
 
+// expectUnknown: "unknown names are rejected". Which error the composite
+// reports is not fixed (today: whatever the configured getter returns,
+// unchanged); no back end is registered for the name, so none may see
+// the operation.
 func expectUnknown(t *rapid.T, op string, n name, err error, calls []backends.Call, w *demuxWorld) {
 	if err == nil {
 		t.Fatalf("%s on unregistered instance name %q succeeded; config %s", op, n, w)
-	}
-	if status.Code(err) != codes.InvalidArgument {
-		t.Fatalf("%s on unregistered instance name %q: got %v, want the getter's INVALID_ARGUMENT; config %s", op, n, err, w)
 	}
 	if len(calls) != 0 {
 		t.Fatalf("%s on unregistered instance name %q contacted a back end: %v; config %s", op, n, calls, w)
 	}
 }
 
-func expectBackendErr(t *rapid.T, op string, err error, code codes.Code, r *route, text string, w *demuxWorld) {
-	if err == nil {
-		t.Fatalf("%s: back end %q failed with %s but the composite succeeded; config %s", op, r.match, code, w)
+// onlyRoute asserts that every back-end call of one operation went to
+// route r and concerned only the given (rewritten) digests. Number and
+// kind of the calls are the implementation's.
+func onlyRoute(t *rapid.T, op string, n name, calls []backends.Call, r *route, allowed []digest.Digest, w *demuxWorld) {
+	ok := map[string]bool{}
+	for _, d := range allowed {
+		ok[d.String()] = true
 	}
-	tag := fmt.Sprintf("Backend %q", r.match.String())
-	if status.Code(err) != code || !strings.Contains(msgOf(err), tag) || !strings.Contains(msgOf(err), text) {
-		t.Fatalf("%s: got error %v, want code %s with %s and the back end's text %q; config %s", op, err, code, tag, text, w)
+	for _, cl := range calls {
+		if cl.Backend != r.label {
+			t.Fatalf("%s for %q: back end %s was contacted, but the longest component-wise prefix is %q (back end %s); calls %v; config %s", op, n, cl.Backend, r.match, r.label, calls, w)
+		}
+		for _, d := range cl.Digests {
+			if !ok[d.String()] {
+				t.Fatalf("%s for %q: back end %q was asked about %s, want only %v (prefix %q replaced by %q); calls %v; config %s", op, n, r.match, d, allowed, r.match, r.add, calls, w)
+			}
+		}
 	}
 }
 
@@ -287,11 +298,19 @@ func TestC19Demux(t *testing.T) {
 				clearFault(r.faulty)
 			}
 			faultOn := -1
+			firedBefore := 0
 			var faultCode codes.Code
 			if rapid.IntRange(0, 5).Draw(t, "fault") == 0 {
 				faultOn = rapid.IntRange(0, len(w.routes)-1).Draw(t, "faultbe")
 				faultCode = rapid.SampledFrom(append([]codes.Code{codes.NotFound}, faultCodes...)).Draw(t, "faultcode")
 				setFault(w.routes[faultOn].faulty, w.routes[faultOn].seen, 0, faultCode)
+				firedBefore = w.routes[faultOn].faulty.FiredCount()
+			}
+			// faultFired: the armed back end failed a call of this operation.
+			// The property says nothing about how such a failure is reported;
+			// an error is then accepted, a success must still be correct.
+			faultFired := func() bool {
+				return faultOn >= 0 && w.routes[faultOn].faulty.FiredCount() > firedBefore
 			}
 			c.Add(kind, faultOn, int(faultCode))
 			w.log.Reset()
@@ -327,17 +346,15 @@ func TestC19Demux(t *testing.T) {
 				if kind == "GetFromComposite" {
 					wantDigests = append(wantDigests, sha(pn, k2))
 				}
-				if len(calls) != 1 || calls[0].Backend != r.label || calls[0].Op != kind ||
-					!sameStrings(sortedStrings(calls[0].Digests), sortedStrings(wantDigests)) || calls[0].Digests[0] != wantDigests[0] {
-					t.Fatalf("%s for %q (data %d): want exactly one call %s.%s%v (longest component-wise prefix %q, rewritten to %q), back ends saw %v; config %s",
-						kind, n, k, r.label, kind, wantDigests, r.match, pn, calls, w)
+				onlyRoute(t, kind, n, calls, r, wantDigests, w)
+				if len(calls) != 1 || calls[0].Op != kind {
+					cls["read_not_exactly_one_backend_call"] = true
 				}
 				if !eq(pn, n) {
 					cls["read_rewritten"] = true
 				}
 				switch stored, ok := r.mem.Peek(wantDigests[0]); {
-				case faultOn == ri:
-					expectBackendErr(t, kind, err, faultCode, r, r.faulty.ErrText(), w)
+				case faultFired() && err != nil:
 					cls["read_fault"] = true
 				case ok:
 					if err != nil || !bytes.Equal(got, stored) {
@@ -345,8 +362,11 @@ func TestC19Demux(t *testing.T) {
 					}
 					cls["read_hit"] = true
 				default:
-					if status.Code(err) != codes.NotFound || !strings.Contains(msgOf(err), fmt.Sprintf("Backend %q", r.match.String())) {
-						t.Fatalf("%s for %q: object absent in back end %q, want NOT_FOUND carrying the back-end name, got %v; config %s", kind, n, r.match, err, w)
+					if err == nil {
+						t.Fatalf("%s for %q: object absent in back end %q under %q, yet the caller got %q; config %s", kind, n, r.match, pn, got, w)
+					}
+					if status.Code(err) != codes.NotFound {
+						cls["read_miss_not_not_found"] = true
 					}
 					cls["read_miss"] = true
 				}
@@ -364,8 +384,8 @@ func TestC19Demux(t *testing.T) {
 				calls := w.log.Snapshot()
 				w.absorbLog(calls)
 				rendered = append(rendered, fmt.Sprintf("Put(%q,%d)->%v", n, k, err))
-				if nc := src.Closes.Load(); nc != 1 {
-					t.Fatalf("Put for %q: upload buffer released %d times, want once (err %v); config %s", n, nc, err, w)
+				if src.Closes.Load() != 1 {
+					cls["put_source_not_closed_once"] = true
 				}
 				if ri != w.stringRoute(n) {
 					cls["string_prefix_would_route_differently"] = true
@@ -381,20 +401,16 @@ func TestC19Demux(t *testing.T) {
 				r := w.routes[ri]
 				pn := r.rewrite(n)
 				pd := sha(pn, k)
-				if len(calls) != 1 || calls[0].Backend != r.label || calls[0].Op != "Put" || calls[0].Digests[0] != pd {
-					t.Fatalf("Put for %q (data %d): want exactly one call %s.Put(%s) (longest component-wise prefix %q), back ends saw %v; config %s",
-						n, k, r.label, pd, r.match, calls, w)
+				onlyRoute(t, "Put", n, calls, r, []digest.Digest{pd}, w)
+				if len(calls) != 1 || calls[0].Op != "Put" {
+					cls["put_not_exactly_one_backend_put"] = true
 				}
-				if faultOn == ri {
-					expectBackendErr(t, "Put", err, faultCode, r, r.faulty.ErrText(), w)
-					if w.stateKey() != before {
-						t.Fatalf("failed Put for %q changed a back end; config %s", n, w)
+				if err != nil {
+					if !faultFired() {
+						t.Fatalf("Put for %q failed although no back end failed: %v; config %s", n, err, w)
 					}
 					cls["put_fault"] = true
 					break
-				}
-				if err != nil {
-					t.Fatalf("Put for %q failed: %v; config %s", n, err, w)
 				}
 				if stored, ok := r.mem.Peek(pd); !ok || !bytes.Equal(stored, payload(k)) {
 					t.Fatalf("Put for %q: object not stored in back end %q under %q; config %s", n, r.match, pn, w)
@@ -440,20 +456,16 @@ func TestC19Demux(t *testing.T) {
 				calls := w.log.Snapshot()
 				w.absorbLog(calls)
 				rendered = append(rendered, fmt.Sprintf("FindMissing(%v)->%v,%v", set.Items(), missing.Items(), err))
-				if len(unknown) > 0 {
-					expectUnknown(t, "FindMissing", unknown[0], err, calls, w)
-					if missing.Length() != 0 {
-						t.Fatalf("failed FindMissing returned digests %v", missing.Items())
-					}
-					cls["find_unknown_name"] = true
-					break
-				}
-				// Model: partition by route, per-back-end answers.
+				// Model: partition the digests of registered names by route,
+				// per-back-end answers.
 				parts := map[int]map[string]bool{}
 				wantMissing := map[string]bool{}
 				usedRoutes := map[int]bool{}
 				distinctNames := map[string]bool{}
 				for _, it := range items {
+					if it.ri < 0 {
+						continue
+					}
 					r := w.routes[it.ri]
 					pd := sha(r.rewrite(it.n), it.k)
 					if parts[it.ri] == nil {
@@ -469,9 +481,11 @@ func TestC19Demux(t *testing.T) {
 						cls["find_rewritten"] = true
 					}
 				}
-				// Every call must be the one FindMissing for its back
-				// end, carrying exactly that back end's digests.
-				contacted := map[int]bool{}
+				// Every back-end call must go to a back end that owns some of
+				// the digests and ask only about its own digests, in its own
+				// (rewritten) names. How often a back end is asked is the
+				// implementation's.
+				contacted := map[int]int{}
 				for _, cl := range calls {
 					idx := -1
 					for i, r := range w.routes {
@@ -479,33 +493,36 @@ func TestC19Demux(t *testing.T) {
 							idx = i
 						}
 					}
-					if cl.Op != "FindMissing" || parts[idx] == nil || contacted[idx] {
-						t.Fatalf("FindMissing(%v): unexpected or repeated back-end call %v; all calls %v; config %s", set.Items(), cl, calls, w)
+					if parts[idx] == nil {
+						t.Fatalf("FindMissing(%v): back end %q was contacted although none of the digests is routed to it: %v; all calls %v; config %s", set.Items(), w.routes[idx].match, cl, calls, w)
 					}
-					contacted[idx] = true
-					if !sameStrings(sortedStrings(cl.Digests), sortedKeys(parts[idx])) {
-						t.Fatalf("FindMissing(%v): back end %q asked for %v, want exactly its own digests %v; config %s",
-							set.Items(), w.routes[idx].match, cl.Digests, sortedKeys(parts[idx]), w)
+					contacted[idx]++
+					for _, d := range cl.Digests {
+						if !parts[idx][d.String()] {
+							t.Fatalf("FindMissing(%v): back end %q asked about %s, want only its own digests %v; config %s",
+								set.Items(), w.routes[idx].match, d, sortedKeys(parts[idx]), w)
+						}
 					}
 				}
-				if faultOn >= 0 && parts[faultOn] != nil {
-					if !contacted[faultOn] {
-						t.Fatalf("FindMissing(%v) returned without asking back end %q; calls %v; config %s", set.Items(), w.routes[faultOn].match, calls, w)
+				for idx := range parts {
+					if contacted[idx] != 1 {
+						cls["find_backend_not_asked_exactly_once"] = true
 					}
-					expectBackendErr(t, "FindMissing", err, faultCode, w.routes[faultOn], w.routes[faultOn].faulty.ErrText(), w)
-					if missing.Length() != 0 {
-						t.Fatalf("failed FindMissing returned digests %v", missing.Items())
+				}
+				if len(unknown) > 0 {
+					// "unknown names are rejected"
+					if err == nil {
+						t.Fatalf("FindMissing(%v) with unregistered instance name %q succeeded; config %s", set.Items(), unknown[0], w)
 					}
-					cls["find_fault"] = true
+					cls["find_unknown_name"] = true
 					break
 				}
 				if err != nil {
-					t.Fatalf("FindMissing(%v) failed: %v; config %s", set.Items(), err, w)
-				}
-				for idx := range parts {
-					if !contacted[idx] {
-						t.Fatalf("FindMissing(%v): back end %q never asked; calls %v; config %s", set.Items(), w.routes[idx].match, calls, w)
+					if !faultFired() {
+						t.Fatalf("FindMissing(%v) failed although no back end failed: %v; config %s", set.Items(), err, w)
 					}
+					cls["find_fault"] = true
+					break
 				}
 				if got := sortedStrings(missing.Items()); !sameStrings(got, sortedKeys(wantMissing)) {
 					t.Fatalf("FindMissing(%v) = %v, want the union of the back ends' answers in caller names %v; config %s",
